@@ -120,6 +120,11 @@ def _one(args):
         return (kind, v["name"], "fail", f"expected {want} on '{v.get('construct', '')}', new findings: "
                 + "; ".join(o.key for o in new[:3]))
     unk = {o.key for o in ctx.obs if o.status == report.UNKNOWN and o.required} - base_unknown
+    if v.get("silent"):
+        # a twin of a fault that repairs exactly what one rule objects to (e.g. a completely keyed memo): only that rule is asked to be silent --
+        # the variant is not behaviour-preserving in the sense of the other entries, and other rules may have their say
+        new = [o for o in new if o.rule in v["silent"]]
+        unk = set()
     if new or unk:
         return (kind, v["name"], "fail", "benign variant flagged: " + "; ".join([o.key for o in new[:3]] + sorted(unk)[:3]))
     return (kind, v["name"], "ok", "")
